@@ -1010,6 +1010,119 @@ def register_result(lib):
         return lib.char_boundary(items, k)
 
 
+def register_text_more(lib):
+    I = lib.I
+    reg = lib.reg
+
+    @reg(r'^(core::)?char::methods::<impl char>::len_utf8$', 'char::len_utf8')
+    def _len_utf8(fr, name, args, ops):
+        c = args[0]
+        if type(c) is int:
+            return 1 if c < 0x80 else (2 if c < 0x800 else (3 if c < 0x10000 else 4))
+        return T.ite(64, T.ult(32, c, 0x80), 1, T.ite(64, T.ult(32, c, 0x800), 2, T.ite(64, T.ult(32, c, 0x10000), 3, 4)))
+
+    @reg(r'^String::pop$', 'String::pop')
+    def _s_pop(fr, name, args, ops):
+        s_ = lib.deref(args[0])
+        buf = s_[0]
+        if not len(buf):
+            return lib.none()
+        last = buf[-1]
+        if type(last) not in (int, Term):
+            raise Unsupported('String::pop on a string ending in a conditional piece')
+        if lib.may_be_non_ascii(last) and type(last) is Term:
+            raise Unsupported('String::pop of a byte that may belong to a multi-byte character')
+        I.structural(buf)
+        buf.pop()
+        return lib.some(last)
+
+    def replace_items(items, frm, to):
+        """every item equal to the (ASCII) character `frm` becomes the text `to`; recursion into conditional pieces"""
+        out = []
+        for it in items:
+            if type(it) is Guarded:
+                out.append(Guarded(it.cond, replace_items(it.items, frm, to)))
+            elif type(it) is int:
+                out.extend(to if it == frm else [it])
+            elif type(it) is Term:
+                hit = T.eq(it.w, it, frm)
+                if type(hit) is int:
+                    out.extend(to if hit else [it])
+                else:
+                    out.append(Guarded(hit, list(to)))
+                    out.append(Guarded(T.lnot(hit), [it]))
+            else:
+                raise Unsupported('replace over a non-character piece')
+        return out
+
+    @reg(r'^(std|alloc)::str::<impl str>::replace::<char>$', 'str::replace(char, &str)')
+    def _replace_ch(fr, name, args, ops):
+        frm = args[1]
+        if type(frm) is not int or frm >= 0x80:
+            raise Unsupported('replace of a symbolic or non-ASCII character')
+        to = lib.str_items(args[2])
+        return lib.new_string(replace_items(lib.str_items(args[0]), frm, to))
+    lib.replace_items = replace_items
+
+    @reg(r'^<String as Extend<(char|&char|&str|String)>>::extend::<', 'String::extend')
+    def _s_extend(fr, name, args, ops):
+        s_ = lib.deref(args[0])
+        src = args[1]
+        if not (type(src) is L and src.tag in ITER):
+            src = I.call(fr, '<X as IntoIterator>::into_iter', [src], None)
+        kind = re.match(r'^<String as Extend<(char|&char|&str|String)>>', name).group(1)
+        out = []
+        while True:
+            ok, v = lib.it_next(src)
+            if not ok:
+                break
+            if v is DEAD:
+                return DEAD
+            if kind == 'char':
+                out.append(v)
+            elif kind == '&char':
+                out.append(lib.deref(v))
+            else:
+                out.extend(lib.str_items(v))
+        I.appending(s_[0])
+        s_[0].extend(out)
+        return UNIT
+
+    @reg(r'^<String as FromIterator<(char|&str|String)>>::from_iter::<|^<.* as Iterator>::collect::<String>$', 'collect::<String>')
+    def _collect_string(fr, name, args, ops):
+        src = args[0]
+        if not (type(src) is L and src.tag in ITER):
+            src = I.call(fr, '<X as IntoIterator>::into_iter', [src], None)
+        out = []
+        while True:
+            ok, v = lib.it_next(src)
+            if not ok:
+                break
+            if v is DEAD:
+                return DEAD
+            if type(v) in (int, Term):
+                out.append(v)
+            else:
+                out.extend(lib.str_items(v))
+        return lib.new_string(out)
+
+    @reg(r'^(std|core)::f64::<impl f64>::(min|max)$', 'f64::min/max (finite operands)')
+    def _fminmax(fr, name, args, ops):
+        from . import fpterms as F
+        a, b = args[0], args[1]
+        want_min = name.endswith('min')
+        x, y = a.v, b.v
+        if not F.is_sym(x) and not F.is_sym(y) and not isinstance(x, F.Dy) and not isinstance(y, F.Dy):
+            if x != x:
+                return Float(y)
+            if y != y:
+                return Float(x)
+            return Float(min(x, y) if want_min else max(x, y))
+        lt = F.cmp('lt', x, y)
+        # NaN operands are outside: the checks constrain every float they introduce to a finite interval
+        return Float(F.ite(lt, x, y) if want_min else F.ite(lt, y, x))
+
+
 def register_last(lib):
     """lowest priority fallbacks"""
     I = lib.I
